@@ -11,7 +11,8 @@ import vlib
 TARGETS = ["Base/Num.vo", "Base/Corr.vo", "C13/Model.vo", "C13/ModelKernels.vo", "C13/Spec.vo", "C13/SpecTest.vo",
            "C13/Corr.vo", "C13/Anchors.vo", "C13/ProofsGlue.vo", "C13/ProofsDrivers.vo", "C13/ProofsTables.vo",
            "C13/ProofsAnchors.vo", "C13/Spec2.vo", "C13/ProofsAnchors2.vo", "C13/Anchors2.vo", "C13/Spec3.vo", "C13/ProofsAnchors3.vo",
-           "C13/Spec4.vo", "C13/Model4.vo", "C13/ProofsAnchors4.vo", "C13/Anchors4.vo", "C13/Props.vo"]
+           "C13/Spec4.vo", "C13/Model4.vo", "C13/ProofsAnchors4.vo", "C13/Anchors4.vo",
+           "C13/Spec6.vo", "C13/ProofsAnchors6.vo", "C13/Anchors6.vo", "C13/Props.vo"]
 PROPS = ["C13/Props.v"]
 PARTIAL = ("No theorem about the accuracy of the Boost-ported kernels (gamma_incomplete_imp, igamma_temme_large, bessel_ik, "
            "temme_ik, CF1/CF2, digamma/trigamma/polygamma/zeta rational approximations) over all float64 arguments is attempted. "
@@ -55,7 +56,22 @@ PARTIAL = ("No theorem about the accuracy of the Boost-ported kernels (gamma_inc
            "anchors (blind to relative errors of psi_n(x) at large x) and to the recurrence sweep. Zeta at non-integer s >= 7 and odd integers >= 7 is "
            "certified by the same series; zeta_imp_prec below 7 (s < 1, <= 2, <= 4) has only the smoothness relation across its thresholds. The go/ast pass "
            "now lists integer-order comparisons of polygamma.go / zeta.go / factorial.go and labels each comparison select / convergence "
-           "(boundaries.by_role, boundaries.select_not_both_sides, boundaries.newly_covered_round5 with the covering anchors).")
+           "(boundaries.by_role, boundaries.select_not_both_sides, boundaries.newly_covered_round5 with the covering anchors). "
+           "Round 6 (accuracy RELATIVE TO THE RESULT where the result is near zero): proved for all finite a <= b (LogSub: all b < a kept apart by the roundings) "
+           "under the STANDARD MODEL of floating-point arithmetic (each of the four operations of the text -- subtraction, exp, log1p, addition -- returns "
+           "the exact value times 1 + delta, |delta| <= u; underflow and the -Inf / NaN paths are outside this model and stay with the R-model theorems) that "
+           "the computed LogAdd / LogSub is within la_bound / ls_bound = u |result| + ~u (3 + |a-b|) e^(a-b) of ln(e^a +- e^b): a bound relative to the result, "
+           "not an absolute one. That Go's math.Exp / math.Log1p satisfy the model with u = 2^-51 is an ASSUMPTION (their documented < 1 ulp error), checked only at "
+           "the anchors: ~190 certified LogAdd / LogSub anchors whose tolerance is la_bound / ls_bound itself (arguments > 36 apart with the larger one 0 or tiny, "
+           "results crossing zero by cancellation, equal arguments, both orders, seed-dependent distances up to 700). Integer-order I_n: proved for every n, x >= 0, K "
+           "past the ratio test that the power series lies in [partial sum, partial sum + geometric tail bound] (is_bessel_I = sum of the series, hypothesis; its "
+           "satisfiability for all x is not proved, only the ratio-test side conditions by Example) and the linear-size nested form of the partial sum; BesselI(n, x) and "
+           "LogBesselI(n, x) are certified against it at n in {0,1,2,5,7}, x from 1e-150 to 30 (thorough: 650) incl. ln I_0(x) = x^2/4 for x < 1e-7 RELATIVE to the result "
+           "with tolerance 4 ulp (4 + |2 ln x - ln 4|) (the log-domain formulation loses |ln x| ulps: proposed finding C13-LogBesselI0-tiny-x-log-domain-loss). Between the "
+           "anchors nothing is proved about bessel_i0_log / bessel_i1_log (their polynomial coefficients are not modelled). LogErfc at tiny |x| down to 1e-300 is "
+           "certified relative to the result against the series model over R and (to 1e-100) against the erfc integral; LogErfc at x < -8 down to -MaxFloat64 and "
+           "Digamma / Trigamma at 1/2 - m up to m = 2^50 are exact-outcome anchors decided in float64 (ln 2 within 2 ulp; reflection identities against Go's own value at "
+           "1/2 + m: differential, not certified).")
 BOUNDARIES_EXPECTED = "corpus/C13/boundaries_expected.json"
 try:
     ROUND5_NEW = set(json.load(open(os.path.join(vlib.ROOT, "corpus/C13/round5_targets.json"))))
@@ -222,7 +238,16 @@ def eval_anchor_shards(paths, timeout=1500):
             os.remove(aux)
         return {"path": p, "rc": rc, "ok": ok, "fail": bad, "log": out[-1500:] if rc != 0 else ""}
     with cf.ThreadPoolExecutor(max_workers=int(os.environ.get("C13_WORKERS", vlib.NCPU))) as ex:
-        return list(ex.map(one, paths))
+        res = list(ex.map(one, paths))
+    # a shard killed by a signal (loaded machine: OOM killer, rc < 0) says nothing about the anchors: re-run those, two at a time, up to twice
+    for _ in range(2):
+        again = [k for k, r in enumerate(res) if r["rc"] is not None and r["rc"] < 0]
+        if not again:
+            break
+        with cf.ThreadPoolExecutor(max_workers=2) as ex:
+            for k, r in zip(again, ex.map(one, [res[k]["path"] for k in again])):
+                res[k] = r
+    return res
 
 
 def hunt(ctx, binary, anchors, findings):
@@ -367,6 +392,12 @@ def run(ctx):
     broken = (not ok) or bad_cases or failing or undecided or sfail or (corp["failures"] or [])
     if not broken:
         return
+    # every family of failing anchors is represented among the 40 the hunt looks at (round-robin by family, stable)
+    rank, seen_f = {}, {}
+    for a in failing:
+        rank[a["id"]] = seen_f.get(a["fam"], 0)
+        seen_f[a["fam"]] = rank[a["id"]] + 1
+    failing.sort(key=lambda a: (rank[a["id"]], a["id"]))
     h = hunt(ctx, binary, failing, sfail)
     hres = h.get("results") or []
     results = hres + (corp["failures"] or [])
